@@ -1367,10 +1367,69 @@ def inmem_allocs(F, cls):
     return out, ifn, shared, inmem
 
 
+_MAY_COPY_FUNCS = ("np.require", "numpy.require", "np.array", "numpy.array", "np.copy", "numpy.copy", "copy.copy", "copy.deepcopy")
+_MAY_COPY_METHODS = ("copy", "astype")
+
+
+def _views_not_copies(ctx, F, cls, fns):
+    """What is stored in a persistent attribute while the sketch sits in a shared block must BE that block's memory: the value is
+    `np.frombuffer(...)` possibly reshaped / re-viewed, never the result of something that may hand back a copy (`np.require` with an
+    alignment or ownership requirement, `np.array`, `.copy()`, `.astype()`): a copy is private to the object, so owner, attached views
+    and worker processes stop sharing what it holds -- silently, and possibly only for some shapes."""
+    for fn in fns:
+        if fn is None:
+            continue
+        defs = {}
+        for n in walk_no_nested(fn.node):
+            if isinstance(n, ast.Assign) and len(n.targets) == 1 and isinstance(n.targets[0], ast.Name):
+                defs.setdefault(n.targets[0].id, []).append(n.value)
+
+        def from_buffer(e, depth=0):
+            if depth > 4:
+                return False
+            for x in ast.walk(e):
+                if isinstance(x, ast.Call) and (dotted(x.func) or "").endswith("frombuffer"):
+                    return True
+                if isinstance(x, ast.Name) and any(from_buffer(v, depth + 1) for v in defs.get(x.id, ())):
+                    return True
+            return False
+
+        def copying(e, depth=0):
+            """the may-copy call the value passes through on its way from frombuffer, or None"""
+            if depth > 4:
+                return None
+            if isinstance(e, ast.Call):
+                d = dotted(e.func) or ""
+                if d in _MAY_COPY_FUNCS and e.args and from_buffer(e.args[0]):
+                    if d.endswith("array") and any(k.arg == "copy" and isinstance(k.value, ast.Constant) and k.value.value is False for k in e.keywords):
+                        return None
+                    return e
+                if isinstance(e.func, ast.Attribute) and e.func.attr in _MAY_COPY_METHODS and from_buffer(e.func.value):
+                    if e.func.attr == "astype" and any(k.arg == "copy" and isinstance(k.value, ast.Constant) and k.value.value is False for k in e.keywords):
+                        return None
+                    return e
+                if isinstance(e.func, ast.Attribute) and e.func.attr in ("reshape", "view"):
+                    return copying(e.func.value, depth + 1)
+            if isinstance(e, ast.Name):
+                for v in defs.get(e.id, ()):
+                    r = copying(v, depth + 1)
+                    if r is not None:
+                        return r
+            return None
+        for n in walk_no_nested(fn.node):
+            if isinstance(n, ast.Assign) and len(n.targets) == 1 and self_attr(n.targets[0]) and from_buffer(n.value):
+                bad = copying(n.value)
+                ctx.ob("layout", fn, n, "self.%s = %s" % (self_attr(n.targets[0]), unparse(n.value, 50)),
+                       "a table placed in a shared block is a view of the block, never a possible copy of it", bad is None,
+                       "" if bad is None else "`%s` may return a copy (for instance of an unaligned array): the attribute is then private "
+                       "memory, owner and attached views no longer share it" % unparse(bad, 60))
+
+
 def rule_layout(ctx, classes=SKETCH_CLASSES):
     F = facts_of(ctx)
     for cls in F.classes(classes):
         ctor = F.ctor(cls)
+        _views_not_copies(ctx, F, cls, [ctor, cls.resolve("attach_existing_shm")])
         inmem, ifn, shared, inm = inmem_allocs(F, cls)
         if ifn is None:
             ctx.ob("layout", ctor, ctor.node, "if shared_memory:", "constructor has a shared and an in-memory branch", None)
@@ -1491,6 +1550,9 @@ def rule_layout(ctx, classes=SKETCH_CLASSES):
             ctx.ob("layout", att, a["node"], "%s.%s buffer (attacher)" % (cls.name, nm), "attacher views the existing block it opened by name",
                    any((a["owner"] or "") == o + ".buf" for o in opened))
         # requested size
+        if not csegs:
+            ctx.ob("layout", ctor, ctor.node, "%s: shared-memory layout" % cls.name, "the segments of the block are readable", None, "no segment read")
+            continue
         last = csegs[-1]
         if last["attr"] == "n_added_records":
             # the two uint64 counters follow the last table (directly, or after padding both sides agree on)
